@@ -50,7 +50,7 @@ Inductive status := InProgress | DoneVisible | DoneHidden.
 Inductive tpart := PLit (s : text) | PMsg | PPrefix | PPos | PLen | PSpinner | PNewLine.
 Inductive fin := FAndLeave | FWithMessage (m : text) | FAndClear | FAbandon | FAbandonWithMessage (m : text).
 
-Record ttarget := mktt { tt_n : N; tt_rl : option ratelimiter; tt_align : alignment }.
+Record ttarget := mktt { tt_n : N; tt_rl : option ratelimiter; tt_align : alignment; tt_below : bool }.
 Inductive target := THidden | TTerm (t : ttarget) | TMulti (idx : N).
 
 Record bar := mkbar {
@@ -181,21 +181,25 @@ Section WithTerminal.
     if force then (true, t) else
     match tt_rl t with
     | None => (true, t)
-    | Some r => let '(a, r') := rl_allow r now in (a, mktt (tt_n t) (Some r') (tt_align t))
+    | Some r => let '(a, r') := rl_allow r now in (a, mktt (tt_n t) (Some r') (tt_align t) (tt_below t))
     end.
 
   (* Drawable::draw for a Term/TermLike target: last_line_count is only updated on success *)
   Definition term_draw (t : ttarget) (ls : list line) (c : N) : ttarget * list termop * N * bool :=
-    let '(ops, n') := draw_to_term ls (tt_n t) (tt_align t) W H in
+    let '(ops, n', below') := draw_to_term ls (tt_n t) (tt_align t) (tt_below t) W H in
     let '(e, c', ok) := emit c ops in
-    (mktt (if ok then n' else tt_n t) (tt_rl t) (tt_align t), e, c', ok).
+    (mktt (if ok then n' else tt_n t) (tt_rl t) (tt_align t) (if ok then below' else tt_below t), e, c', ok).
 
-  Definition tt_adjust_clear (t : ttarget) (k : N) : ttarget := mktt (tt_n t + k) (tt_rl t) (tt_align t).
-  Definition tt_adjust_keep (t : ttarget) (k : N) : ttarget := mktt (tt_n t - k) (tt_rl t) (tt_align t).
+  Definition tt_adjust_clear (t : ttarget) (k : N) : ttarget := mktt (tt_n t + k) (tt_rl t) (tt_align t) (tt_below t).
+  Definition tt_adjust_keep (t : ttarget) (k : N) : ttarget := mktt (tt_n t - k) (tt_rl t) (tt_align t) (tt_below t).
 
   (* ProgressDrawTarget::adjust_last_line_count: only Term/TermLike targets *)
   Definition target_adjust_keep (t : target) (k : N) : target :=
     match t with TTerm tg => TTerm (tt_adjust_keep tg k) | _ => t end.
+
+  (* ProgressDrawTarget::last_line_count *)
+  Definition target_n (t : target) : N :=
+    match t with TTerm tg => tt_n tg | _ => 0 end.
 
   Definition ms_width (m : mstate) : option N :=
     match ms_target m with TTerm _ => Some W | _ => None end.
@@ -221,34 +225,36 @@ Section WithTerminal.
   Definition member_lines (mems : list member) (i : N) : list line :=
     match m_lines (nthN mems i member_default) with Some ls => ls | None => [] end.
 
-  (* MultiState::draw, src/multi.rs *)
+  (* MultiState::draw, src/multi.rs (after fix commits 7be6e32 and bae6780) *)
   Definition ms_draw (m : mstate) (force : bool) (extra : option (list line)) (now c : N)
     : mstate * list termop * N * bool :=
     match ms_target m with
     | TTerm tg =>
         let zs := head_zombies (ms_order m) (ms_members m) in
         let adj := fold_left (fun a i => a + member_vlc (nthN (ms_members m) i member_default) W) zs 0 in
-        let zl := ms_zombie_lines m + adj in
-        let '(tg1, zl1) := match extra with
-                           | Some _ => (tt_adjust_clear tg zl, 0)
-                           | None => (tg, zl)
-                           end in
+        (* println of the MultiProgress or of a member: erase the kept zombie rows as well *)
+        let has_text := match extra with Some _ => true | None => false end
+                        || negb (match ms_orphans m with [] => true | _ => false end) in
+        let '(tg1, zl1) := if has_text then (tt_adjust_clear tg (ms_zombie_lines m), 0)
+                           else (tg, ms_zombie_lines m) in
         let force' := force || (0 <? visual_line_count (ms_orphans m) W) in
         let '(allowed, tg2) := tt_allow tg1 force' now in
         if negb allowed then
           (set_ms_target (set_ms_zombie_lines m zl1) (TTerm tg2), [], c, true)
         else
-          let tg2a := mktt (tt_n tg2) (tt_rl tg2) (ms_align m) in
+          let tg2a := mktt (tt_n tg2) (tt_rl tg2) (ms_align m) (tt_below tg2) in
           let ls := match extra with Some e => e | None => [] end
                     ++ ms_orphans m
                     ++ concat (map (member_lines (ms_members m)) (ms_order m)) in
           let '(tg3, e, c', ok) := term_draw tg2a ls c in
           let m1 := set_ms_target (set_ms_zombie_lines (set_ms_orphans m []) zl1) (TTerm tg3) in
           let m2 := fold_left ms_remove_idx zs m1 in
-          let m3 := match extra with
-                    | None => set_ms_target m2 (target_adjust_keep (ms_target m2) adj)
-                    | Some _ => m2
-                    end in
+          (* only rows that have been drawn can be kept: min adj last_line_count *)
+          let adj' := N.min adj (target_n (ms_target m2)) in
+          let m3 := if has_text then m2
+                    else set_ms_zombie_lines
+                           (set_ms_target m2 (target_adjust_keep (ms_target m2) adj'))
+                           (ms_zombie_lines m2 + adj') in
           (m3, e, c', ok)
     | _ => (m, [], c, true)
     end.
@@ -266,6 +272,11 @@ Section WithTerminal.
   (* MultiState::suspend: clear, run the closure, forced draw; results discarded *)
   Definition ms_suspend (m : mstate) (writes : list text) (now c : N) : mstate * list termop * N :=
     let '(m1, e1, c1, _) := ms_clear m c in
+    (* fix 96a75c4: Keep(usize::MAX) - rows kept by a bottom-aligned clear are not erased again *)
+    let m1 := set_ms_target m1 (match ms_target m1 with
+                                | TTerm tg => TTerm (mktt 0 (tt_rl tg) (tt_align tg) (tt_below tg))
+                                | t => t
+                                end) in
     let '(e2, c2) := emit_each c1 (map TLine writes) in
     let '(m3, e3, c3, _) := ms_draw m1 true None now c2 in
     (m3, e1 ++ e2 ++ e3, c3).
@@ -283,6 +294,7 @@ Section WithTerminal.
                     | Some w => member_vlc (nthN (ms_members m) idx member_default) w
                     | None => 0
                     end in
+          let lc := N.min lc (target_n (ms_target m)) in
           ms_remove_idx
             (set_ms_target (set_ms_zombie_lines m (ms_zombie_lines m + lc))
                            (target_adjust_keep (ms_target m) lc))
@@ -477,9 +489,12 @@ Section WithTerminal.
         | None => (s, [], true)   (* API misuse: reference bar is not a member (panics) - not generated *)
         end
     | ORemove b =>
+        (* MultiProgress::remove (after fix dbf4cde): hide the bar, free its slot, forced redraw *)
         match b_target (get_bar s b) with
-        | TMulti idx => (set_s_mp (upd_bar s b (fun x => set_b_target x THidden))
-                                  (ms_remove_idx (s_mp s) idx), [], true)
+        | TMulti idx =>
+            let s1 := upd_bar s b (fun x => set_b_target x THidden) in
+            let '(m2, e, c', _) := ms_draw (ms_remove_idx (s_mp s1) idx) true None now (s_calls s1) in
+            (set_s_calls (set_s_mp s1 m2) c', e, true)
         | _ => (s, [], true)
         end
     | OMPrintln m =>
@@ -501,5 +516,5 @@ End WithTerminal.
 Definition new_bar (len : option N) (fk : fin) (tm : list tpart) (t : target) (now : N) : bar :=
   mkbar 0 len 0 InProgress [] [] tm fk (ap_new now) t true.
 Definition new_ttarget (rate : option N) (now : N) : ttarget :=
-  mktt 0 (option_map (fun r => rl_new r now) rate) Top.
+  mktt 0 (option_map (fun r => rl_new r now) rate) Top false.
 Definition new_ms (t : target) : mstate := mkms [] [] [] Top [] 0 t.
